@@ -50,6 +50,25 @@ def run(ck: Check, prog: Program) -> None:
                    f'and every call is answered -32601 instead of being validated and executed')
     # the exclusion predicate (and every other option a validator subclass accepts on behalf of BaseValidator) reaches the base
     # constructor as given: dropped on the way, the default `lambda *args: False` is used and nothing is ever excluded
+    binit = prog.cls(BASEVAL).methods.get('__init__')
+    if binit is not None:
+        ck.functions.add(binit.qualname)
+        from ..flow import Flow as _FlowI
+        icfg = CFG(binit, prog)
+        ifl = _FlowI(icfg)
+        pnames_ = {p.arg for p in binit.params}
+        for n_ in icfg.stmt_nodes():
+            a_ = n_.ast
+            if isinstance(a_, ast.Assign) and dotted(a_.targets[0]) == 'self._exclude_param':
+                vals_ = [al.expr for al in ifl.alts(n_, a_.value, boolops=True)]
+                bad_ = [v_ for v_ in vals_ if not (isinstance(v_, ast.Name) and v_.id in pnames_ or isinstance(v_, ast.Lambda) or
+                                                   isinstance(v_, ast.Name) and not isinstance(prog.resolve(binit.module, v_), type(None)))]
+                ck.ob('EXCL-FORWARD', 'BaseValidator keeps the exclusion predicate as given (or the never-exclude default)', not bad_)
+                for v_ in bad_:
+                    ck.finding('EXCL-FORWARD', binit.qualname, f'predicate stored as `{norm(v_)[:50]}`', binit.module.rel, a_.lineno,
+                               f'`{norm(a_)[:100]}` stores `{norm(v_)[:60]}` instead of the predicate the application gave: it is called with the '
+                               f'parameter\'s (name, annotation, default) — wrapped in a memo it must hash them, and a parameter with a mutable default '
+                               f'(`tags: list = []`) makes every call of the method fail with -32603 instead of being validated')
     for ci in vs:
         if ci.qualname == BASEVAL or '__init__' not in ci.methods:
             continue
